@@ -1,6 +1,22 @@
 # per-property run configuration for bin/vcheck
 MAP_CONFIG = ["internal/config/config.go", "internal/config/validation.go", "internal/k8s/controllers/config_conversion.go"]
 
+MAP_ALLOC = ["internal/allocator/allocator.go", "controller/main.go", "controller/service.go", "internal/config/config.go",
+             "internal/k8s/controllers/config_conversion.go", "internal/k8s/controllers/pool_controller.go",
+             "internal/k8s/controllers/service_controller.go", "internal/k8s/controllers/service_controller_reload.go"]
+
+def alloc_conf(prop, rule, extra_assume=()):
+    return {
+  "level": "model_checking",
+  "rule": rule,
+  "parts": [{"name": "main", "pkg": "controller", "test": "TestVerif_" + prop, "shards": {"quick": 16, "thorough": 16},
+             "budget_s": {"quick": 120, "thorough": 1500}, "gomaxprocs": 1}],
+  "rewrites": {"map": MAP_ALLOC},
+  "assumptions": ["Kubernetes side is a model (DESIGN 3): one worker per controller, at-least-once delivery of pending keys in any order, the controller sees its own status writes",
+                  "status writes persist status and annotations, never spec (Service status strategy)",
+                  "universes are closed alphabets of pool layouts and service variants (DESIGN 5)", "map iteration order owned: sorted"] + list(extra_assume),
+ }
+
 CONF = {
  "C18": {
   "level": "exploration",
@@ -24,4 +40,10 @@ CONF = {
   "assumptions": ["valid encoder domain: 4-byte next hop, <=63 legacy communities, not (eBGP and 2-byte peer and ASN>65535)",
                   "well-formed OPEN = RFC 4271 message of length 29+optlen, version 4, hold time 0 or >=3, only capability parameters, capability 65/1 of length 4"],
  },
+ "C01": alloc_conf("C01", "explicit-state BFS over event histories (user events: create/update/delete of 3 services over a variant catalogue, pool layout changes; environment: any pending queue key next) of the real controller+reconcilers+allocator in 4 universes; state = canonical dump of store, queues, allocator maps, reconciler state; exclusivity + bookkeeping-coherence invariants on every new state, status exclusivity on every quiescent state"),
+ "C02": alloc_conf("C02", "same graph; pool-policy oracle (membership in exactly one pool, buggy addresses, selectors, families, explicit requests, pool annotation) on every quiescent state and allocation-edge oracle (autoAssign, priority constraints) on every transition that gives a service its first address"),
+ "C03": alloc_conf("C03", "same graph; macro-edge frame oracle between consecutive quiescent states (reference point carried in the state key while settling) + double full-resync write count from every new quiescent state"),
+ "C06": alloc_conf("C06", "same graph with crash/restart (between any two events, before and after the first status write of a delivery) and failing status writes as bounded deviations; keep / no-steal / no-leak / gate oracles at the new instance's quiescent states", ["crash = the process is replaced by a fresh controller+reconcilers+allocator over the same store; all pending work is lost and re-derived from initial add events"]),
+ "C07": alloc_conf("C07", "same graph; starvation oracle on every quiescent state: a LoadBalancer service without address for which refalloc finds an admissible assignment with the others' holdings fixed"),
+ "C11": alloc_conf("C11", "same graph; on every new state: counters == distinct addresses in use, assigned+available == refcidr capacity, no negative counter, allocator dump == dump of a fresh allocator rebuilt from the surviving assignments, every address released by the transition can be assigned to a fresh service"),
 }
